@@ -213,7 +213,7 @@ def gen_pd(rng: Rng, now: int, profile: str) -> dict:
     else:
         pd["delay_until"] = now + rng.choice([-S, 0, 1500, 500_000, 2 * S + 250_000, 600 * S, 2 * 86400 * S + 1500])
     if rng.random() < (0.5 if profile == "ttl" else 0.15):
-        pd["ttl"] = rng.choice([S, 2 * S, 5 * S, 3600 * S])
+        pd["ttl"] = rng.choice([S, 2 * S, 5 * S, 3600 * S, 0, 1])
     return pd
 
 
